@@ -34,7 +34,18 @@ Inductive case :=
 (* the Bitcoin Executor.Execute on one delivery: proposals (deposit nonce, resource id) in delivery
    order; per schedule, per goroutine: the nonces it put into its transaction and the resource whose
    UTXOs it asked for (None = none / not a configured resource), in order of the first nonce *)
-| Bexec (props : list (N * N)) (runs : list (list (list N * option N))).
+| Bexec (props : list (N * N)) (runs : list (list (list N * option N)))
+(* one delivery handed to several relayers (real Executor.Execute each) of which the first is fault-free
+   and every other suffers failing executed-status look-ups at the marked positions.
+   EVM: message id, gas cap, transfer gas; per proposal deposit nonce, gasLimit metadata, executed on
+   the destination; per relayer its fault mask and the sessions (members, session ids) it started *)
+| SessF (mid : string) (cap tg : N) (props : list (N * option N * bool))
+        (rels : list (list bool * list (list N * list string)))
+(* Substrate: per proposal deposit nonce, executed *)
+| SubF (mid : string) (props : list (N * bool)) (rels : list (list bool * list (list N * list string)))
+(* Bitcoin: per proposal (deposit nonce, resource id), executed (block-store record); per relayer its
+   fault mask and per goroutine the nonces it put into its transaction and the resource it asked for *)
+| BexecF (props : list (N * N * bool)) (rels : list (list bool * list (list N * option N))).
 
 Definition src_domain : Z := 1.
 
@@ -116,6 +127,13 @@ Definition rel_agree (k : kind) (i : Z) (deps : list deposit) (r : relayer) : bo
 Definition rel_judge (k : kind) (i : Z) (deps : list deposit) (r : relayer) : bool :=
   cells_ok k i (rel_obs r) && forallb (group_ok k i deps) (rel_groups r).
 
+(* the fault-free relayer's observation (the first relayer of a faulty-relayer case) *)
+Definition ref_of {X : Type} (rels : list (list bool * list X)) : list X :=
+  match rels with (_, r) :: _ => r | [] => [] end.
+
+Definition first_clean {X : Type} (rels : list (list bool * list X)) : bool :=
+  match rels with (m, _) :: _ => negb (existsb (fun b => b) m) | [] => false end.
+
 Definition agree (c : case) : bool :=
   match c with
   | Pair k i deps a b => rel_agree k i deps a && rel_agree k i deps b
@@ -128,6 +146,12 @@ Definition agree (c : case) : bool :=
       forallb (fun r => sess_eqb (evm_sessions mid bs) r) runs
       && forallb (fun h => nll_eqb (evm_hashed bs) h) hashed
   | Bexec props runs => forallb (fun r => bgroups_eqb (bexec_spec props) r) runs
+  | SessF mid cap tg props rels =>
+      first_clean rels && forallb (fun r => sess_eqb (evm_exec mid cap tg (mark props (fst r))) (snd r)) rels
+  | SubF mid props rels =>
+      first_clean rels && forallb (fun r => sess_eqb (sub_exec mid (mark props (fst r))) (snd r)) rels
+  | BexecF props rels =>
+      first_clean rels && forallb (fun r => bgroups_eqb (btc_exec (mark props (fst r))) (snd r)) rels
   end.
 
 Definition judge (c : case) : bool :=
@@ -139,6 +163,10 @@ Definition judge (c : case) : bool :=
   | NonceOf b tx pre dg n => String.eqb (nonce_preimage b tx) pre && N.eqb (xor_fold (unhex dg)) n
   | Sess mid bs runs hashed => sess_ok mid bs runs hashed
   | Bexec props runs => bexec_ok props runs
+  (* every session a relayer with failing look-ups started is one of its fault-free peer's *)
+  | SessF _ _ _ _ rels => faulty_ok sess1_eqb (ref_of rels) (map snd rels)
+  | SubF _ _ rels => faulty_ok sess1_eqb (ref_of rels) (map snd rels)
+  | BexecF _ rels => faulty_ok bgroup1_eqb (ref_of rels) (map snd rels)
   end.
 
 Definition tag (c : case) : N :=
@@ -150,6 +178,9 @@ Definition tag (c : case) : N :=
   | NonceOf _ _ _ _ _ => 8%N
   | Sess _ bs _ _ => match evm_hashed bs with [] => 9%N | [_] => 10%N | _ => 11%N end
   | Bexec props _ => match bexec_spec props with [] => 12%N | [_] => 13%N | [_; _] => 14%N | _ => 15%N end
+  | SessF mid cap tg props _ => match evm_exec mid cap tg (mark props []) with [] => 16%N | [_] => 17%N | _ => 18%N end
+  | SubF mid props _ => match sub_exec mid (mark props []) with [] => 19%N | _ => 20%N end
+  | BexecF props _ => match btc_exec (mark props []) with [] => 21%N | [_] => 22%N | _ => 23%N end
   end.
 
 Definition check_all := check_cases agree judge tag.
